@@ -40,14 +40,6 @@ MayVanish(cfg, pre, e) ==
      /\ \/ cfg.limit # 0 /\ Cardinality(Dom(pre) \cup {e.k}) > cfg.limit
         \/ e.mem /\ cfg.maxmem # 0 /\ SizeOf(pre, Dom(pre) \ {e.k}) + e.size > cfg.maxmem
 
-\* a store that does not overflow (entry limit not reached, total size fits) loses no unexpired entry:
-\* an earlier stored result stays served (used by the C09 / C10 / C11 monitors for the results THEY say
-\* are stored; pre carries ghost ages)
-NoNeedlessLoss(cfg, pre, e, post) ==
-  ( /\ cfg.limit = 0 \/ Cardinality(Dom(pre) \cup {e.k}) <= cfg.limit
-    /\ cfg.maxmem = 0 \/ ~e.mem \/ SizeOf(pre, Dom(pre) \ {e.k}) + e.size <= cfg.maxmem )
-  => (Dom(pre) \ ExpiredKeys(cfg, pre)) \ {e.k} \subseteq Dom(post)
-
 Unconfigured(cfg, meta) ==
   cfg.limit = 0 /\ cfg.ttl = 0 /\ cfg.maxmem = 0 /\ ~meta.hasCif /\ ~meta.hasInv /\ ~meta.isResult
 
